@@ -88,6 +88,8 @@ func buildArena(sc *pw.Scenario) error {
 	os.Symlink("src", "/w/lnk-rel")
 	os.Symlink("/w/lnk-abs", "/w/lnk-chain")
 	os.Symlink("/w/lnk-loop-b", "/w/lnk-loop-a")
+	os.WriteFile("/w/plainfile", []byte("not a directory"), 0o644)
+	os.Symlink("/w/plainfile", "/w/lnk-file")
 	os.Symlink("/w/lnk-loop-a", "/w/lnk-loop-b")
 	os.WriteFile("/w/hist1/.terraformignore", []byte("!x\ny\n"), 0o644)
 	os.WriteFile("/w/hist1/x", []byte("hx"), 0o644)
@@ -229,6 +231,10 @@ func spell(s, cwd string) string {
 		return "/w/lnk-rel/"
 	case "symlink-loop":
 		return "/w/lnk-loop-a"
+	case "not-a-dir":
+		return "/w/plainfile"
+	case "link-to-file":
+		return "/w/lnk-file"
 	}
 	return pw.SrcRoot
 }
@@ -694,6 +700,12 @@ func Run(sc *pw.Scenario) *simkit.Outcome {
 		}
 		if r.err != nil && r.meta != nil {
 			out.Violate("C12", "pack-meta-with-error", "meta+err", fmt.Sprintf("run %d: Pack returned both Meta and error %v", i, r.err))
+		}
+		if sp := sc.Runs[i].Spelling; sp == "not-a-dir" || sp == "link-to-file" {
+			if r.err == nil {
+				out.Violate("C12", "pack-of-non-directory", "empty-slug", fmt.Sprintf("run %d: the source argument names a regular file (%s); Pack returned no error and an archive of %d bytes", i, sp, len(r.data)))
+			}
+			continue
 		}
 		if r.err != nil {
 			continue
@@ -1346,6 +1358,9 @@ func checkRejections(out *simkit.Outcome, sc *pw.Scenario, res []*result, t *tre
 		}
 		if rn := sc.Runs[i]; rn.Spelling == "symlink-rel" && (rn.Cwd != "/w" || sc.Conc || histChdir(sc)) {
 			continue // the source itself may not resolve (known finding of C16): nothing is reached
+		}
+		if sp := sc.Runs[i].Spelling; sp == "symlink-loop" || sp == "not-a-dir" || sp == "link-to-file" {
+			continue // no tree is ever reached through such a source argument
 		}
 		out.Probe("out-of-tree-link-without-deref")
 		var ise *slug.IllegalSlugError
